@@ -26,3 +26,12 @@ if 'concrete' not in inspect.signature(jax.remat).parameters:
       raise NotImplementedError('jax.remat(concrete=True) is not available in the installed jax')
     return _remat(fun, **kw)
   jax.remat = _remat_compat
+
+# jax.device_put_sharded / device_put_replicated were removed from the installed jax; flax.jax_utils.prefetch_to_device and
+# replicate still call them. A stand-in that stacks the per-device shards (enough to run the iterator logic on CPU).
+if not hasattr(jax, 'device_put_sharded'):
+  import numpy as _np
+
+  def _device_put_sharded(shards, devices):
+    return jax.device_put(_np.stack([_np.asarray(s) for s in shards]))
+  jax.device_put_sharded = _device_put_sharded
